@@ -148,7 +148,8 @@ func JSONWriteIRIProp(b *[]byte, n string, i LinkOrIRI) (notEmpty bool) {
 }
 
 func JSONWriteItemProp(b *[]byte, n string, i Item) (notEmpty bool) {
-	if i == nil {
+	if i == nil || (IsObject(i) || IsLink(i)) && IsNil(i) {
+		// NOTE: a nil pointer to one of the vocabulary types has nothing to write
 		return notEmpty
 	}
 	if im, ok := i.(json.Marshaler); ok {
@@ -200,7 +201,7 @@ func JSONWriteItemCollectionValue(b *[]byte, col ItemCollection, compact bool) (
 	if len(col) == 1 && compact {
 		it := col[0]
 		im, ok := it.(json.Marshaler)
-		if !ok {
+		if !ok || (IsObject(it) || IsLink(it)) && IsNil(it) {
 			return false
 		}
 		v, err := im.MarshalJSON()
@@ -222,7 +223,7 @@ func JSONWriteItemCollectionValue(b *[]byte, col ItemCollection, compact bool) (
 	skipComma := true
 	for _, it := range col {
 		im, ok := it.(json.Marshaler)
-		if !ok {
+		if !ok || (IsObject(it) || IsLink(it)) && IsNil(it) {
 			continue
 		}
 		v, err := im.MarshalJSON()
